@@ -88,7 +88,8 @@ def main():
         "hooks": {"guard": "HABUTAX_VERIF", "enable": "export HABUTAX_VERIF=1 before importing habutax (./check does this); pure Python, nothing to build",
                   "baseline_off_cmd": "cd /repo && /venv/bin/python -m pytest -ra -q -p no:cacheprovider --timeout=900 --continue-on-collection-errors",
                   "source_commits": hooks_commits, "add_only": True},
-        "engines": [{"name": "tlc", "path": "/verif/spec", "serves_properties": sorted(CLAIMED), "kind_free_text": "explicit TLA+ specification suite checked with TLC 1.8 (model checking, trace validation, oracle evaluation); harness in /verif/harness"}],
+        "engines": [{"name": "tlc", "path": "/verif/spec", "serves_properties": sorted(CLAIMED), "kind_free_text": "explicit TLA+ specification suite checked with TLC 1.8 (model checking, trace validation, oracle evaluation); harness in /verif/harness"},
+                    {"name": "apalache", "path": "/verif/spec/apalache", "serves_properties": ["C06"], "kind_free_text": "Apalache 0.58 discharges the inductive invariant of the bounded-list dependency bookkeeping (thorough tier of C06 only; TLC explores the same model completely in both tiers)"}],
         "checks": checks,
         "not_applicable": [{"property_id": k, "reason": v} for k, v in sorted(TODO.items())],
         "notes": "See DESIGN.md. Exit codes: 0 held, 1 violation (VIOLATION line + replay file), 2 machinery failure.",
